@@ -87,18 +87,7 @@ func (w *world) after(op string, actor int, stream string) {
 		line += w.resolution(o.root)
 	}
 	w.ops = append(w.ops, line)
-	// direct oracle (needs no model): closure of what is stored, of what is advertised
-	if d := w.closureDefect(o); d != "" {
-		w.violate("sync.closure", fmt.Sprintf("replica %d %s", actor, d))
-	}
-	for _, m := range w.emitted {
-		if d := w.advertisedDefect(o, m); d != "" {
-			w.violate("sync.advertised", d)
-		}
-	}
-	if ints(o.heads) != ints(o.entry) {
-		w.violate("sync.headsentry", fmt.Sprintf("replica %d: tree heads %s but durable heads entry %s", actor, ints(o.heads), ints(o.entry)))
-	}
+	w.directOracle(actor, o)
 	if !w.nomodel {
 		t1 := time.Now()
 		ans := w.r.Ask(line)
@@ -119,6 +108,118 @@ func (w *world) after(op string, actor int, stream string) {
 		}
 	}
 	w.emitted = nil
+}
+
+// directOracle states the safety half of C01 on what replica `actor` holds and has just emitted
+// (needs no model): stored set closed under parents and snapshot base; advertised ids stored; every
+// change attached in memory is stored; tree heads = maximal elements of the stored set = durable
+// heads entry (= heads of a tree rebuilt from storage, checked in the guard-directed scenarios after
+// every step, elsewhere every few steps and at the end).
+func (w *world) directOracle(actor int, o obs) {
+	if d := w.closureDefect(o); d != "" {
+		w.violate("sync.closure", fmt.Sprintf("replica %d %s", actor, d))
+	}
+	for _, m := range w.emitted {
+		if d := w.advertisedDefect(o, m); d != "" {
+			w.violate("sync.advertised", d)
+		}
+	}
+	if ints(o.heads) != ints(o.entry) {
+		w.violate("sync.headsentry", fmt.Sprintf("replica %d: tree heads %s but durable heads entry %s", actor, ints(o.heads), ints(o.entry)))
+	}
+	if mx := w.maximal(o.stored); ints(mx) != ints(o.heads) {
+		w.violate("sync.heads.maximal", fmt.Sprintf("replica %d: heads %s, but the maximal elements of what it stores {%s} are %s", actor, ints(o.heads), ints(o.stored), ints(mx)))
+	}
+	if d := w.attachedDefect(actor, o); d != "" {
+		w.violate("sync.attached", d)
+	}
+	w.stepNo++
+	if w.deep || w.stepNo%8 == 0 {
+		if rh, err := w.reopenHeads(actor); err != nil {
+			w.violate("sync.reopen", fmt.Sprintf("replica %d: cannot rebuild the tree from its storage: %v", actor, err))
+		} else if ints(rh) != ints(o.heads) {
+			w.violate("sync.reopen", fmt.Sprintf("replica %d: heads %s in memory but %s when rebuilt from storage", actor, ints(o.heads), ints(rh)))
+		}
+	}
+}
+
+// settleFault: a step whose storage write was failed by the harness must leave the replica as it
+// was (no change stored, none attached, nothing emitted): the model drops the message (if any) and
+// lets the replica rebuild from storage (only the root may move).
+func (w *world) settleFault(actor int, mid int, stream string) {
+	w.resolveEmitted()
+	o, err := w.observe(actor)
+	if err != nil {
+		w.r.Fatal("observe: " + err.Error())
+	}
+	if mid >= 0 {
+		line := fmt.Sprintf("drop %d", mid)
+		w.ops = append(w.ops, "# storage fault during the delivery of the next dropped message", line)
+		if !w.nomodel {
+			w.check(stream, w.r.Ask(line), "ok")
+		}
+	}
+	line := fmt.Sprintf("reroot %d %d", actor, o.root)
+	w.ops = append(w.ops, line)
+	w.directOracle(actor, o)
+	if !w.nomodel {
+		impl := o.line()
+		if ws := w.wires(); ws != "" {
+			impl += " |" + ws
+		}
+		w.check(stream, w.r.Ask(line), impl)
+	}
+	w.emitted = nil
+}
+
+// stepDeliverFault delivers m while the k-th write-side storage call of the receiver fails.
+// It returns false when the step made fewer than k+1 such calls (then it was an ordinary delivery).
+func (w *world) stepDeliverFault(m *message, k int) bool {
+	w.emitted = nil
+	w.take(m)
+	var err error
+	fired, kind, _ := w.faulty(m.to, k, func() { err = w.deliver(m) })
+	if !fired {
+		w.r.Count("op.deliver." + string(rune(m.k)))
+		w.after(fmt.Sprintf("dlv %d", m.mid), m.to, "sync.deliver."+string(rune(m.k)))
+		return false
+	}
+	w.r.Count("op.fault.deliver." + string(rune(m.k)) + "." + kind)
+	if err == nil {
+		w.r.Count("fault.swallowed")
+	}
+	w.settleFault(m.to, m.mid, "sync.fault.deliver")
+	return true
+}
+
+// stepAddFault is a local AddContent while the k-th write-side storage call fails.
+func (w *world) stepAddFault(i int, snap bool, k int) bool {
+	w.emitted = nil
+	var (
+		id  int
+		err error
+	)
+	fired, kind, _ := w.faulty(i, k, func() { id, err = w.localAdd(i, snap) })
+	if err == nil {
+		// the change exists (the fault did not fire, or hit something the add survives)
+		if fired {
+			w.r.Count("fault.swallowed")
+		}
+		info := w.chs[id]
+		sn := 0
+		if snap {
+			sn = 1
+		}
+		w.after(fmt.Sprintf("add %d %d %s %d %d", i, id, ints(info.parents), sn, info.snap), i, "sync.add")
+		return fired
+	}
+	if !fired {
+		w.violate("sync.localadd", fmt.Sprintf("AddContent on replica %d failed: %v", i, err))
+		return false
+	}
+	w.r.Count("op.fault.add." + kind)
+	w.settleFault(i, -1, "sync.fault.add")
+	return true
 }
 
 func (w *world) begin() {
@@ -374,7 +475,7 @@ func seq(n int) []int {
 
 // ---- schedules -------------------------------------------------------------------------------
 
-type weights struct{ deliver, add, snap, drop, dup, delay, sync int }
+type weights struct{ deliver, add, snap, drop, dup, delay, sync, fault int }
 
 func (w *world) pickMsg() *message {
 	var free []*message
@@ -396,7 +497,7 @@ func (w *world) pickMsg() *message {
 }
 
 func (w *world) randomSchedule(steps int, wt weights) {
-	total := wt.deliver + wt.add + wt.snap + wt.drop + wt.dup + wt.delay + wt.sync
+	total := wt.deliver + wt.add + wt.snap + wt.drop + wt.dup + wt.delay + wt.sync + wt.fault
 	for s := 0; s < steps && !w.failed; s++ {
 		for _, m := range w.net {
 			if m.held > 0 {
@@ -428,10 +529,18 @@ func (w *world) randomSchedule(steps int, wt weights) {
 				m.held = 3 + w.r.Intn(25)
 				w.r.Count("op.delay")
 			}
-		default:
+		case x < wt.deliver+wt.add+wt.snap+wt.drop+wt.dup+wt.delay+wt.sync:
 			i := w.r.Intn(w.n)
 			j := (i + 1 + w.r.Intn(w.n-1)) % w.n
 			w.stepSync(i, j)
+		default:
+			// a storage fault inside the schedule: some write call of a delivery or of a local add fails
+			k := w.r.Intn(7)
+			if m := w.pickMsg(); m != nil && w.r.Chance(70) {
+				w.stepDeliverFault(m, k)
+			} else {
+				w.stepAddFault(w.r.Intn(w.n), w.r.Chance(25), k)
+			}
 		}
 	}
 }
@@ -492,11 +601,27 @@ func Run(r *corr.Run) {
 	// 1. guard-directed scenarios (fixed shapes, every seed), then the stale-fork family (quick: a
 	// seed-dependent quarter of it)
 	all := scenarios()
+	all = append(all, manyHeadsFamily()...)
 	for _, sc := range staleForkFamily(r) {
 		if r.Quick() && r.Intn(4) != 0 {
 			continue
 		}
 		all = append(all, sc)
+	}
+	// storage faults: every write call of the last step of each base schedule
+	for _, mk := range faultFamily() {
+		for k := 0; k < 40 && violations == 0; k++ {
+			sc := mk(k)
+			var fired bool
+			run(sc.n, sc.batch, func(w *world) { sc.body(w); fired = w.faultFired })
+			r.Count("scenario.fault")
+			if !fired {
+				break
+			}
+		}
+		if violations > 0 {
+			return
+		}
 	}
 	for _, sc := range all {
 		sc := sc
@@ -513,10 +638,10 @@ func Run(r *corr.Run) {
 
 	// 2. random schedules
 	profiles := []weights{
-		{deliver: 50, add: 20, snap: 5, drop: 10, dup: 10, delay: 5, sync: 2},
-		{deliver: 35, add: 25, snap: 10, drop: 15, dup: 5, delay: 10, sync: 3},
-		{deliver: 60, add: 15, snap: 3, drop: 3, dup: 15, delay: 4, sync: 1},
-		{deliver: 25, add: 30, snap: 8, drop: 30, dup: 2, delay: 5, sync: 5},
+		{deliver: 50, add: 20, snap: 5, drop: 10, dup: 10, delay: 5, sync: 2, fault: 3},
+		{deliver: 35, add: 25, snap: 10, drop: 15, dup: 5, delay: 10, sync: 3, fault: 4},
+		{deliver: 60, add: 15, snap: 3, drop: 3, dup: 15, delay: 4, sync: 1, fault: 2},
+		{deliver: 25, add: 30, snap: 8, drop: 30, dup: 2, delay: 5, sync: 5, fault: 5},
 	}
 	maxSched := r.Pick(400, 20000)
 	// thorough: half of the budget for random schedules, the rest for the exhaustive ones
